@@ -30,6 +30,30 @@
 (*    (RefusedWithoutReject);                                              *)
 (*  - a quarantine verdict issued during a command that is refused need    *)
 (*    not stick (it may, see QuarantineWithoutVerdict).                    *)
+(*                                                                         *)
+(* Further dimensions of the configuration:                                 *)
+(*  early/everd  the checks of the global block that have the connection-   *)
+(*    time hook (module.EarlyCheck) and those of them that refuse the       *)
+(*    connection.  Command "early" is MsgPipeline.RunEarlyChecks (what the  *)
+(*    endpoint calls for a new connection); check calls of it carry stage   *)
+(*    "early".  The statement's "at connection stage ... rejects => the     *)
+(*    corresponding command is refused" is all that is asked of it: how     *)
+(*    often a hook is called per connection is not constrained.             *)
+(*  dupof  the client may name the same address in several RCPT commands of *)
+(*    one transaction: recipient ids are per ADDRESS, so command "rcpt r1"  *)
+(*    may occur twice.  A recipient that a check refused is refused again   *)
+(*    when the command is repeated (whether or not the check is asked       *)
+(*    again); a check that saw it in an accepted command is not shown it    *)
+(*    again.  On the per-recipient body path the result of "body" is "ok"   *)
+(*    iff SOME RCPT command's reply slot ends up with a success (go-smtp's  *)
+(*    LMTP collector: one slot per RCPT command, a slot nobody fills gets   *)
+(*    the result of the final Commit).                                      *)
+(*  dmarc  "off" | "none" | "quar" | "rej": the action the published DMARC  *)
+(*    policy prescribes for the message (DMARC fails in every scenario that *)
+(*    has a policy); "rej" refuses the body like a rejecting check does.    *)
+(*    dmvia says HOW that policy is published (p= / sp= of a record at the  *)
+(*    From domain or at its organizational domain, C07's ground): the       *)
+(*    predicates do not read it.                                            *)
 (***************************************************************************)
 EXTENDS Naturals, Sequences, FiniteSets
 
@@ -71,12 +95,14 @@ BodyChecks(c, acc) == ChecksIn(c, "G") \cup ChecksIn(c, "S")
 (* SMTP and LMTP and for every completion order".                          *)
 (***************************************************************************)
 ExpRefused(c, op, r, acc) ==
-  CASE op = "start" -> \E k \in ChecksIn(c, "G") \cup ChecksIn(c, "S") :
+  CASE op = "early" -> c.everd # {}
+    [] op = "start" -> \E k \in ChecksIn(c, "G") \cup ChecksIn(c, "S") :
                           IsRej(c.verd[k]["conn"]) \/ IsRej(c.verd[k]["sender"])
     [] op = "rcpt"  -> \E k \in ScopeChecks(c, r) :
                           \/ IsRej(c.verd[k]["conn"]) \/ IsRej(c.verd[k]["sender"])
                           \/ IsRej(RcptVerdict(c, k, r))
-    [] op = "body"  -> \E k \in BodyChecks(c, acc) : IsRej(c.verd[k]["body"])
+    [] op = "body"  -> \/ \E k \in BodyChecks(c, acc) : IsRej(c.verd[k]["body"])
+                       \/ c.dmarc = "rej"
     [] OTHER -> FALSE
 
 ObsInit(CS) ==
@@ -91,6 +117,7 @@ ObsInit(CS) ==
     accK   |-> [k \in CS |-> {}],   \* ... during accepted commands
     totK   |-> [k \in CS |-> {}],   \* ... at all
     accR   |-> {}, refR |-> {},     \* recipients accepted / refused so far
+    rejR   |-> {},         \* recipients refused in a command during which a check rejected them
     lastOk |-> FALSE,      \* result of the last command
     qReq   |-> FALSE,      \* a quarantine verdict was returned during an accepted command
     qAny   |-> FALSE,      \* a quarantine verdict was returned at all
@@ -131,7 +158,7 @@ ObsTgt(o, c, t, op, arg, res, q) ==
                 \/ (c.dmarc = "quar" /\ op \in {"commit", "relay"})
       mayQ  == o.qAny \/ c.dmarc = "quar" \/ c.kind = "remote"
       o1 == CASE op = "rcpt" -> V(o, ~o.rejCur /\ ~o.modCur /\ ~o.dead /\ arg \notin o.refR, "DeliveredAfterReject")
-              [] op \in {"body", "bodyNA"} -> V(o, ~o.rejCur /\ ~o.dead, "DeliveredAfterReject")
+              [] op \in {"body", "bodyNA"} -> V(o, ~o.rejCur /\ ~o.dead /\ c.dmarc # "rej", "DeliveredAfterReject")
               [] op \in {"commit", "relay"} -> V(o, ~o.dead, "DeliveredAfterReject")
               [] OTHER -> o
       o2 == IF op \in {"body", "bodyNA", "commit", "relay"}
@@ -157,22 +184,27 @@ Fold(o, accepted) ==
 (* the command returned; res = "ok" | "err" (per-recipient body path: "ok" iff some
    recipient got a success status) *)
 ObsRet(o, c, op, r, res) ==
-  IF op \notin {"start", "rcpt", "body"} THEN [o EXCEPT !.open = FALSE]
+  IF op \notin {"early", "start", "rcpt", "body"} THEN [o EXCEPT !.open = FALSE]
   ELSE
   LET acc == res = "ok"
       \* the only target is the real remote target and the message is flagged: it refuses the body
       qref == c.kind = "rpipe" /\ op = "body" /\ (o.qReq \/ o.qCur \/ c.dmarc = "quar")
       \* destination blocks whose checks passed for a recipient that a modifier then refused may or
       \* may not take part in the body stage
+      \* the published DMARC policy refuses the message
+      drej == op = "body" /\ c.dmarc = "rej"
+      \* the command repeats a recipient that a check has refused: refused again, asked again or not
+      again == op = "rcpt" /\ r \in o.rejR
       must == ExpRefused(c, op, r, o.accR) \/ qref
       may  == ExpRefused(c, op, r, o.accR \cup o.touchR) \/ qref \/ o.modCur
       o1 == V(o, ~(acc /\ o.rejCur), "RejectNotEnforced")
-      o2 == V(o1, ~(~acc /\ ~o.rejCur /\ ~o.modCur /\ ~qref), "RefusedWithoutReject")
+      o2 == V(o1, ~(~acc /\ ~o.rejCur /\ ~o.modCur /\ ~qref /\ ~drej /\ ~again), "RefusedWithoutReject")
       o3 == V(o2, (must => ~acc) /\ (~acc => may), "OutcomeNotAsSpecified")
       o3b == V(o3, ~(acc /\ qref), "RemoteAcceptedQuarantined")
       o4 == Fold(o3b, acc)
       accR1 == IF acc /\ op = "rcpt" THEN o.accR \cup {r} ELSE o.accR
-      need(k) == CASE op = "start" -> IF k \in ChecksIn(c, "G") \cup ChecksIn(c, "S")
+      need(k) == CASE op = "early" -> {}
+                   [] op = "start" -> IF k \in ChecksIn(c, "G") \cup ChecksIn(c, "S")
                                       THEN {"conn", "sender"} ELSE {}
                    [] op = "rcpt"  -> IF k \in ScopeChecks(c, r) THEN {"conn", "sender", r} ELSE {}
                    [] op = "body"  -> IF k \in BodyChecks(c, accR1)
@@ -183,9 +215,10 @@ ObsRet(o, c, op, r, res) ==
   IN [o5 EXCEPT !.open = FALSE, !.lastOk = acc,
                 !.accR = accR1,
                 !.refR = IF ~acc /\ op = "rcpt" THEN @ \cup {r} ELSE @,
+                !.rejR = IF ~acc /\ op = "rcpt" /\ o.rejCur THEN @ \cup {r} ELSE @,
                 !.touchR = IF ~acc /\ op = "rcpt" /\ o.modCur /\ ~o.rejCur THEN @ \cup {r} ELSE @,
                 !.qReq = @ \/ (acc /\ o.qCur),
-                !.dead = @ \/ (~acc /\ op \in {"start", "body"} /\ o.rejCur),
+                !.dead = @ \/ (~acc /\ op \in {"start", "body"} /\ (o.rejCur \/ drej)),
                 !.rejCur = FALSE, !.qCur = FALSE, !.modCur = FALSE]
 
 ObsEnd(o, c) == V(o, ~(o.qReq /\ o.tF), "QuarantineNotSeen")
